@@ -292,6 +292,24 @@ def survey(props, repo, funcs=None, jobs=16, kinds=None):
     return rows, per_func
 
 
+NOISE = ("debug_log", "info_log", "warning_log", "error_log", "self._debug", "self._info", "configure_logging", "`del kwargs`",
+         "`del mode`", "`self._debug`", "raise AssertionError", "raise ConfigFileError", "self.log.", "raise_config_error",
+         "ignorable_runtime_exception", "`self._info`", "debug_to_console")
+
+
+def _noise(r):
+    d = r["desc"]
+    if any(x in d for x in NOISE):
+        return True
+    if r["kind"] == "ARGSWAP" and (".format(" in d or "isinstance(" in d or "hasattr(" in d or "getattr(" in d):
+        return True
+    if r["func"].endswith(".__init__") and r["kind"] in ("DEL", "CONST"):
+        return True
+    if r["kind"] == "DROPKW" and ("ticks" in d and "events.post" in d):
+        return True
+    return False
+
+
 def recheck(props, repo, path, jobs=16):
     d = json.load(open(path))
     rows = [r for r in d["rows"] if r.get("tests") != "tests-fail"]
@@ -314,7 +332,7 @@ def recheck(props, repo, path, jobs=16):
     for i, status, info in res:
         tot[status] = tot.get(status, 0) + 1
         r = rows[i]
-        if status != "fired":
+        if status != "fired" and not _noise(r):
             print("%-3s %s:%d [%s] %s %s" % (status[:3], r["func"].split("::")[1], r["line"], r["kind"], r["desc"], info[:70]))
     print("recheck of %d test-surviving mutants: %s" % (len(rows), tot))
     return 0
